@@ -199,6 +199,11 @@ def check_documented_constructor_errors(rep: Report):
         "Reshape: element count changes": lambda: bj.Reshape(bj.Exp((4,)), (3,)),
         "Reshape: cond element count changes": lambda: bj.Reshape(bj.AdditiveCondition(f, (2,), (4,)), (2,), (3,)),
         "Reshape: cond_shape for an unconditional bijection": lambda: bj.Reshape(bj.Exp((4,)), (2, 2), (2,)),
+        "Transformed: base and bijection with different condition shapes": lambda: __import__("flowjax.distributions", fromlist=["x"]).Transformed(
+            __import__("flowjax.distributions", fromlist=["x"]).Transformed(__import__("flowjax.distributions", fromlist=["x"]).Normal(jnp.zeros(2)), bj.AdditiveCondition(f, (2,), (2,))),
+            bj.AdditiveCondition(f, (2,), (3,))),
+        "Transformed: bijection shape differs from the base distribution's": lambda: __import__("flowjax.distributions", fromlist=["x"]).Transformed(
+            __import__("flowjax.distributions", fromlist=["x"]).Normal(jnp.zeros(2)), bj.Exp((3,))).log_prob(jnp.ones(3)),
         "Vmap: both in_axes and axis_size": lambda: bj.Vmap(bj.Exp(()), in_axes=0, axis_size=3),
         "Vmap: neither in_axes nor axis_size": lambda: bj.Vmap(bj.Exp(())),
         "Coupling: transformer with a shape": lambda: bj.Coupling(jr.PRNGKey(0), transformer=bj.Affine(jnp.zeros(2)), untransformed_dim=1, dim=3, nn_width=2, nn_depth=1),
